@@ -166,6 +166,18 @@ def make_env(kind: str, templates: dict[str, str], counter: list[int], root: str
         loader = CachingFileSystemLoader(root)
     elif kind == "choice":
         loader = ChoiceLoader([DictLoader({}), FileSystemLoader(root)])
+    elif kind in ("fs-sync-override", "caching-fs-sync-override"):
+        # the customisation documented in docs/loading_templates.md: a file-system loader
+        # subclass that overrides get_source() only (partials come from a sub-directory)
+        base = FileSystemLoader if kind == "fs-sync-override" else CachingFileSystemLoader
+
+        class SnippetsLoader(base):  # type: ignore[misc, valid-type]
+            def get_source(self, env, template_name, *, context=None, **kwargs):  # noqa: ANN001
+                if kwargs.get("tag") in ("include", "render"):
+                    template_name = "snippets__/" + template_name
+                return super().get_source(env, template_name, context=context, **kwargs)
+
+        loader = SnippetsLoader(root)
     else:
         raise ValueError(kind)
     del liquid2
@@ -190,7 +202,7 @@ def env_variant(v: str) -> dict[str, Any]:
 
 
 DICT_KINDS = ["dict", "gated", "caching", "caching-ns", "gated-caching", "gated-uptodate", "gated-stale", "gated-stale-slow"]
-FS_KINDS = ["fs", "caching-fs", "choice"]
+FS_KINDS = ["fs", "caching-fs", "choice", "fs-sync-override", "caching-fs-sync-override"]
 
 
 def outcome(fn) -> tuple:  # noqa: ANN001
@@ -320,10 +332,12 @@ class Work:
             self.tmp = tempfile.mkdtemp(prefix="vf-c03-")
         root = tempfile.mkdtemp(dir=self.tmp)
         for name, src in templates.items():
-            p = os.path.join(root, name)
-            os.makedirs(os.path.dirname(p), exist_ok=True)
-            with open(p, "w", encoding="utf-8", newline="") as f:
-                f.write(src)
+            # (a second copy for loaders that serve partials from a sub-directory)
+            for p, text in ((os.path.join(root, name), src),
+                            (os.path.join(root, "snippets__", name), "S!" + src)):
+                os.makedirs(os.path.dirname(p), exist_ok=True)
+                with open(p, "w", encoding="utf-8", newline="") as f:
+                    f.write(text)
         return root
 
     # -------------------------------------------------------------- differential
